@@ -31,7 +31,9 @@ impl Prop for C05 {
     }
     fn strategy(&self, tier: Tier) -> BoxedStrategy<SearchCase> {
         let max_n = tier.pick(12, 40);
-        net_any(max_n)
+        // one network in 250 has up to 400 (thorough 1500) vertices
+        let big_n = tier.pick(400, 1500);
+        prop_oneof![498 => net_any(max_n).boxed(), 1 => net_any(big_n).boxed(), 1 => net_long(2 * big_n).boxed()]
             .prop_flat_map(move |net| {
                 let m = net.m();
                 (
